@@ -90,6 +90,8 @@ impl Baseline {
     /// # Errors
     /// Returns an error if the file cannot be read or parsed.
     pub fn load(path: &Path) -> Result<Self> {
+        #[cfg(feature = "verif-hooks")]
+        crate::verif_hooks::point("load:baseline:start");
         let file = fs::File::open(path).map_err(|e| SlocGuardError::FileAccess {
             path: path.to_path_buf(),
             source: e,
